@@ -715,6 +715,25 @@ def mutate(data, muts):
     return bytes(b)
 
 
+def build_special(sut, inp):
+    """Retry / Version Negotiation packets with the connection IDs of the connection (anyone who saw one of its packets can write them)"""
+    from vlib import refquic as R
+
+    kind = inp[0]
+    try:
+        if kind == "retry":
+            # valid integrity tag, token of any size
+            dcid = sut.host_cid
+            odcid = sut._peer_cid.cid if inp[2] else bytes(8)
+            return R.build_retry(sut._version or R.V1, dcid, bytes([0x5A] * 8), bytes(inp[1]), odcid)
+        cur = sut._version or R.V1
+        other = R.V2 if cur == R.V1 else R.V1
+        versions = {"current": [cur], "current+other": [cur, other], "other": [other], "none": [], "unknown": [0x1A2A3A4A], "many": [0x0A0A0A0A + i for i in range(300)]}[inp[1]]
+        return R.build_version_negotiation(sut.host_cid, sut._peer_cid.cid if inp[2] else bytes(8), versions)
+    except Exception:  # noqa
+        return b""
+
+
 def raw_case(ctx, case):
     from vlib import endpoints as E
     from vlib.harness import exc_signature
@@ -749,27 +768,8 @@ def raw_case(ctx, case):
                 pool = [d for x, d in flights] + nxt
                 a, b = pool[inp[1] % len(pool)], pool[inp[2] % len(pool)]
                 data = mutate(a, inp[3])[: inp[4] % 1500] + b
-            elif kind == "retry":
-                # a Retry with a valid integrity tag (anyone who saw the client's first Initial can compute it) and a token of any size
-                from vlib import refquic as R
-
-                try:
-                    dcid = sut.host_cid
-                    odcid = sut._peer_cid.cid if inp[2] else bytes(8)
-                    data = R.build_retry(sut._version or R.V1, dcid, bytes([0x5A] * 8), bytes(inp[1]), odcid)
-                except Exception:  # noqa
-                    data = b""
-            elif kind == "vn":
-                # a Version Negotiation packet with the right connection IDs (anyone who saw a packet of the connection can write one)
-                from vlib import refquic as R
-
-                try:
-                    cur = sut._version or R.V1
-                    other = R.V2 if cur == R.V1 else R.V1
-                    versions = {"current": [cur], "current+other": [cur, other], "other": [other], "none": [], "unknown": [0x1A2A3A4A], "many": [0x0A0A0A0A + i for i in range(300)]}[inp[1]]
-                    data = R.build_version_negotiation(sut.host_cid, sut._peer_cid.cid if inp[2] else bytes(8), versions)
-                except Exception:  # noqa
-                    data = b""
+            elif kind in ("retry", "vn"):
+                data = build_special(sut, inp)
             elif kind == "close":
                 # the application closes; whatever the network did before, the transmit calls must keep working
                 guard("close", sut.close, error_code=inp[1], reason_phrase=inp[2])
